@@ -87,7 +87,11 @@ func genMesh(seed uint64, tier string) *Plan {
 		case x < 40:
 			add("graft", i, t)
 		case x < 50:
-			add("prune", i, t, int64(r.intn(3)*r.rng(0, 40)))
+			bo := int64(r.intn(3) * r.rng(0, 40))
+			if r.chance(0.08) {
+				bo = []int64{1 << 62, 9223372037, 1 << 40}[r.intn(3)] // seconds
+			}
+			add("prune", i, t, bo, int64(r.intn(3)/2*r.rng(1, 3)))
 		case x < 60:
 			add("score", i, int64(r.rng(-5, 8))*1000)
 		case x < 66:
@@ -142,7 +146,7 @@ func genMesh(seed uint64, tier string) *Plan {
 				add("adv", int64(r.rng(1000, 2100)))
 			}
 			if r.chance(0.6) {
-				add("prune", i, t, int64(r.intn(2)*r.rng(1, 40)))
+				add("prune", i, t, int64(r.intn(2)*r.rng(1, 40)), int64(r.intn(3)/2*r.rng(1, 3)))
 			}
 			if r.chance(0.5) {
 				add("adv", int64(r.rng(900, 2100)))
@@ -599,6 +603,11 @@ func runMesh(s *sim) {
 			t := w.topicName(it.a(1))
 			if _, ok := pre.mesh[t]; ok {
 				bo := time.Duration(it.a(2)) * time.Second
+				if it.a(2) > 4e9 {
+					// more seconds than a time.Duration can hold: "for ever" (no run lasts that long)
+					bo = time.Duration(1 << 62)
+					s.probe("prune_received_with_huge_backoff")
+				}
 				if bo <= 0 {
 					bo = params.PruneBackoff
 				}
@@ -646,15 +655,31 @@ func runMesh(s *sim) {
 				}
 				if _, known := pre.penalty[id]; scoring && known {
 					d := post.penalty[id] - pre.penalty[id]
-					flood := e.period == params.PruneBackoff && nowD < e.from+params.GraftFloodThreshold
-					notFlood := e.period == params.PruneBackoff && nowD >= e.from+params.GraftFloodThreshold
+					// doubly when it arrives within the graft-flood threshold of the PRUNE - whatever the
+					// length of the back-off that PRUNE started (the signature names the kind of period so
+					// that a finding about one kind does not hide another)
+					flood := nowD < e.from+params.GraftFloodThreshold
+					kind := ""
 					switch {
+					case e.period == params.PruneBackoff:
+					case e.period == params.UnsubscribeBackoff:
+						kind = "/after-unsubscribe-backoff"
+					default:
+						kind = "/after-peer-named-backoff"
+					}
+					if kind == "/after-peer-named-backoff" {
+						// the running back-off was started by a PRUNE the PEER sent: whether the flood
+						// threshold (time since "the last PRUNE") applies to it is not said; 1 or 2
+						if d != 1 && d != 2 {
+							s.violate("C08", "penalty", "C08/graft-during-backoff/penalty"+kind, "GRAFT(%s) from %s during a back-off the peer had named itself: behaviour penalty rose by %v, want 1 or 2", t, sender.name, d)
+						}
+					}
+					switch {
+					case kind == "/after-peer-named-backoff":
 					case flood && d != 2:
-						s.violate("C08", "penalty", "C08/graft-during-backoff/penalty", "GRAFT(%s) from %s %v after the PRUNE (flood threshold %v): behaviour penalty rose by %v, want 2", t, sender.name, nowD-e.from, params.GraftFloodThreshold, d)
-					case notFlood && d != 1:
-						s.violate("C08", "penalty", "C08/graft-during-backoff/penalty", "GRAFT(%s) from %s %v after the PRUNE (flood threshold %v): behaviour penalty rose by %v, want 1", t, sender.name, nowD-e.from, params.GraftFloodThreshold, d)
-					case d != 1 && d != 2:
-						s.violate("C08", "penalty", "C08/graft-during-backoff/penalty", "GRAFT(%s) from %s during back-off: behaviour penalty rose by %v, want 1 or 2", t, sender.name, d)
+						s.violate("C08", "penalty", "C08/graft-during-backoff/penalty"+kind, "GRAFT(%s) from %s %v after the PRUNE (flood threshold %v, back-off period %v): behaviour penalty rose by %v, want 2", t, sender.name, nowD-e.from, params.GraftFloodThreshold, e.period, d)
+					case !flood && d != 1:
+						s.violate("C08", "penalty", "C08/graft-during-backoff/penalty"+kind, "GRAFT(%s) from %s %v after the PRUNE (flood threshold %v, back-off period %v): behaviour penalty rose by %v, want 1", t, sender.name, nowD-e.from, params.GraftFloodThreshold, e.period, d)
 					}
 					if flood {
 						s.probe("graft_inside_flood_threshold")
